@@ -3,6 +3,7 @@ pub mod c17;
 
 /// Entry point of the engine binary.
 pub fn engine_main() -> ! {
+    common::set_fuzz_registry(fuzz_registry());
     let env = common::Env::from_args();
     let code = match env.property.as_str() {
         "C17" => c17::main(&env),
